@@ -34,10 +34,23 @@ func SentinelMiddleware(opts ...Option) iris.Handler {
 		}
 
 		defer entry.Exit()
+		// An iris handler has no return value: it reports a failure with ctx.SetErr. Only an error
+		// set from here on belongs to this entry (an earlier handler may have left one).
+		before := c.GetErr()
 		c.Next()
-		// An iris handler has no return value: it reports a failure with ctx.SetErr.
-		if err := c.GetErr(); err != nil {
+		if err := c.GetErr(); err != nil && !sameError(err, before) {
 			sentinel.TraceError(entry, err)
 		}
 	}
+}
+
+// sameError compares two errors by identity (error values of a type that cannot be compared are never
+// the same).
+func sameError(a, b error) (same bool) {
+	defer func() {
+		if recover() != nil {
+			same = false
+		}
+	}()
+	return a == b
 }
